@@ -32,33 +32,6 @@ fn resolve_types(
         forall |k: int| 0 <= k < types_of(*final(ast)).len() ==> (match resolved_key(#[trigger] types_of(*final(ast))[k].kind) { Some(key) => r@.contains(string_of(key)), None => true }),
 { unimplemented!() }
 
-// C10 propagation
-spec fn element_propagated(o: ast::InterfaceElement, n: ast::InterfaceElement, iface_oneway: bool) -> bool {
-    match (o, n) {
-        (ast::InterfaceElement::Const(c), ast::InterfaceElement::Const(c2)) => c2 == c,
-        (ast::InterfaceElement::Method(m), ast::InterfaceElement::Method(m2)) => m2 == ast::Method { oneway: m.oneway || iface_oneway, ..m },
-        _ => false,
-    }
-}
-spec fn oneway_propagated(o: ast::Interface, n: ast::Interface) -> bool {
-    &&& n.oneway == o.oneway && n.name == o.name && n.annotations == o.annotations && n.doc == o.doc
-    &&& n.full_range == o.full_range && n.symbol_range == o.symbol_range
-    &&& n.elements@.len() == o.elements@.len()
-    &&& forall |k: int| 0 <= k < o.elements@.len() ==> element_propagated(#[trigger] o.elements@[k], n.elements@[k], o.oneway)
-}
-// one Warning on the redundant keyword (related: the interface name) per method of a oneway interface that spells oneway itself
-spec fn oneway_expect(i: ast::Interface, n: int) -> Seq<EX>
-    decreases n
-{
-    if n <= 0 || !i.oneway { Seq::<EX>::empty() }
-    else {
-        oneway_expect(i, n - 1) + (match i.elements@[n - 1] {
-            ast::InterfaceElement::Method(m) => if m.oneway { seq![EX::Rel(warn(m.oneway_range), i.symbol_range)] } else { Seq::<EX>::empty() },
-            ast::InterfaceElement::Const(_) => Seq::<EX>::empty(),
-        })
-    }
-}
-
 #[verifier::external_body]
 fn set_up_oneway_interface(interface: &mut ast::Interface, diagnostics: &mut Vec<Diagnostic>)
     ensures
